@@ -457,6 +457,17 @@ def regress():
     c.step([b"blpop", b"q", b"1"])
     c.step([b"lrange", b"k", b"0", b"-1"])
     cases.append(c)
+    c = LCase("c09reg_cancelled_pop_last_round")
+    # a pop cancelled through its context (here: by the harness watchdog, 20050 ms) does one last
+    # polling round: an element pushed after its last tick is popped although nobody reads the reply
+    c.bg([b"rpush", b"k", b"x", b"y"], 20020)
+    c.step([b"blpop", b"k", b"0"])
+    c.step([b"lrange", b"k", b"0", b"-1"])
+    c.bg([b"brpop", b"k", b"0"], 37)
+    c.bg([b"rpush", b"k", b"z"], 20070)
+    c.step([b"blpop", b"nokey", b"0"])
+    c.step([b"lrange", b"k", b"0", b"-1"])
+    cases.append(c)
     c = LCase("c09reg_lrem_then_len")
     c.step([b"rpush", b"l", b"a", b"b", b"a", b"c", b"a"])
     c.step([b"lrem", b"l", b"-2", b"a"])
